@@ -32,6 +32,7 @@ PROPS = {
  'C11': dict(scope=None, bridge=sigs(['blpop', 'brpop', 'brpoplpush', 'rpush', 'lpush', 'move', 'swapdb']) + ['const_Timeout_eq'], theorems=[]),
  'C13': dict(scope=None, bridge=sigs(['select', 'move', 'swapdb', 'flushall', 'flushdb', 'dbsize', 'echo', 'ping', 'time', 'save',
                                       'bgsave', 'lastsave']) + ['const_DbIndex_eq'], theorems=[]),
+ 'C20': dict(scope=None, bridge=['msg_CONNECTION_ERROR_MSG_eq', 'sigs_same_names'], theorems=[]),
  'C14': dict(scope=None, bridge=sigs(['blpop', 'brpop', 'brpoplpush']) + ['sigs_eq'], theorems=[]),
  'C15': dict(scope=set(F['scan']), bridge=sigs(F['scan']) + ['scanDefaultCount_eq', 'msg_INVALID_CURSOR_MSG_eq',
                                                                'msg_SYNTAX_ERROR_MSG_eq'], theorems=[]),
